@@ -6,6 +6,9 @@ spec:   spec/HeaderAccessOps.tla   token-level grammars (Range, Content-Length, 
         spec/HeaderAccess.tla      request state machine (Extend / Read / GetHeader), memoisation invariants
         spec/MC_HeaderAccess.tla   bounded instances (G: grammar exploration + decision-table export,
                                    M: memoisation, S: read histories for -simulate), firing counters
+        spec/MC_HeaderDates.tla    HTTP-dates: every value within MaxMut slot edits of a valid IMF-fixdate / rfc850-date /
+                                   asctime-date (slot vocabularies of valid and near-valid spellings), decided valid | invalid
+                                   by the specification's own calendar; decision table for the seven date-typed reads
         spec/HeaderAccessTrace.tla trace judge (P:total, P:value, P:memo, D:doc400)
 legs:   M  exhaustive TLC check of the grammars' well-formedness invariants and of the memo design
         A  TLC-exported decision tables (every header value up to the bound, with the specified outcome of
@@ -31,8 +34,19 @@ META = {
                   'otherwise) and replayed on the WSGI and ASGI request objects; read histories explore the memo '
                   'caches exhaustively in the model and by replay/trace judging on the code.',
     'level_note': 'Bounded: token sequences <= 3..6 per grammar exhaustively (vocabulary of spec/HeaderAccessOps.tla), '
-                  '<= 14 tokens and opaque character fuzz randomly. HTTP-date arithmetic and cookie octets are not '
-                  're-specified in TLA+: totality, idempotence, email.utils / http.cookies cross-checks and '
+                  '<= 14 tokens and opaque character fuzz randomly. HTTP-dates are specified at slot level (day-name, day, '
+                  'month, year, time, zone, separators, tail; valid and near-valid spellings such as Avr/Okt/apr/APR, Don/Thx, '
+                  'day 00/32/Feb 30, hour 24, minute/second 60-99, 2- and 5-digit years, UTC/+0000/gmt, one-digit day, doubled or '
+                  'missing spaces, trailing garbage): TLC enumerates every value within 2 slot edits of a valid IMF-fixdate, '
+                  'rfc850-date and asctime-date (quick: one base per format, ~6.4 k values; thorough: nine bases), decides '
+                  'validity with the specification\'s Gregorian calendar (days per month, leap years, day name of the date) and '
+                  'the table is replayed on req.date, if_modified_since, if_unmodified_since and get_header_as_datetime with and '
+                  'without obs_date on both stacks, each read twice; leg B edits up to 5 slots. A valid obs-date read without '
+                  'obs_date=True is "that instant or 400" (documented RFC 1123-only reading; counted in the evidence); a leap '
+                  'second and a day name contradicting the date are value-or-400; two-digit years only where the 50-year rule '
+                  'and the pivot 69 agree (94, 96, 00, 24). Range positions beyond TLC integers (2^63-1, 2^63, 2^64-1, 2^64, 25 '
+                  'digits, leading zeros) are single tokens ordered by a table. Cookie octets and instants outside the date '
+                  'vocabulary are not re-specified in TLA+: totality, idempotence, email.utils / http.cookies cross-checks and '
                   'Read(Write(v)) = v only. TLC -coverage does not terminate on this module; the vacuity guard '
                   'uses firing counters printed by a one-worker run instead. Trusted: TLC, engine/drivers.py, '
                   'email.utils, http.cookies.',
@@ -45,7 +59,8 @@ NIL = '~nil~'
 WIRE = {'range': 'Range', 'content-length': 'Content-Length', 'if-match': 'If-Match',
         'if-none-match': 'If-None-Match', 'forwarded': 'Forwarded', 'x-forwarded-for': 'X-Forwarded-For',
         'x-real-ip': 'X-Real-IP', 'x-forwarded-proto': 'X-Forwarded-Proto', 'x-forwarded-host': 'X-Forwarded-Host',
-        'host': 'Host', 'accept': 'Accept'}
+        'host': 'Host', 'accept': 'Accept', 'date': 'Date', 'if-modified-since': 'If-Modified-Since',
+        'if-unmodified-since': 'If-Unmodified-Since'}
 HNAMES = sorted(WIRE)
 CASINGS = ('lower', 'Title', 'UPPER', 'mIxEd')
 ABSENT = {'p': False, 'o': False, 't': []}
@@ -57,9 +72,13 @@ def kinds(rq):
     """stacks that can express the request: ws / wss exist on ASGI only."""
     return ('asgi',) if rq['scheme'] in WS_SCHEMES else ('wsgi', 'asgi')
 G_HDR = {'accept': 'accept', 'range': 'range', 'rset': 'range', 'clenx': 'content-length', 'clen': 'content-length', 'etag': 'if-none-match', 'fwd': 'forwarded',
-         'xff': 'x-forwarded-for', 'host': 'host'}
+         'xff': 'x-forwarded-for', 'host': 'host', 'rbig': 'range', 'date': 'date'}
+DATE_HDRS = ('date', 'if-modified-since', 'if-unmodified-since')      # a 'date' table row is carried by all three
+# date-typed reads that are not attributes: get_header_as_datetime(name, obs_date=..)
+DATE_CALLS = {'date_hdr': ('Date', False), 'date_obs': ('Date', True), 'ims_obs': ('If-Modified-Since', True),
+              'ius_obs': ('If-Unmodified-Since', True)}
 # accessors the specification says nothing about beyond "value or 400, same on every read"
-EXTRA_ATTRS = ('date', 'if_modified_since', 'if_unmodified_since', 'cookies', 'accept', 'client_accepts_msgpack', 'user_agent', 'if_range', 'content_type')
+EXTRA_ATTRS = ('cookies', 'accept', 'client_accepts_msgpack', 'user_agent', 'if_range', 'content_type')
 
 
 def cased(name, c):
@@ -181,6 +200,10 @@ def observe(q, a, hn='', casing='Title'):
             v = q.client_accepts('text/plain')
         elif a == 'prefers':
             v = q.client_prefers(list(PREFERS_POOL))
+        elif a in DATE_CALLS:
+            name, obs = DATE_CALLS[a]
+            v = q.get_header_as_datetime(cased(name.lower(), casing), obs_date=obs) if obs else \
+                q.get_header_as_datetime(cased(name.lower(), casing))
         else:
             v = getattr(q, a)
         return project(a, v), None
@@ -200,6 +223,10 @@ def accepts(spec, obs):
     if spec['k'] == 'value':
         same = obs['k'] == 'value' and obs['s'] == spec['s'] and obs['i'] == spec['i'] and obs['l'] == spec['l']
         return 'ok' if same else 'P:value'
+    if spec['k'] == 'value400':
+        if obs['k'] == 'err400':
+            return 'D:obs400'
+        return 'ok' if obs['k'] == 'value' and obs['s'] == spec['s'] and obs['i'] == [] and obs['l'] == [] else 'P:value'
     if spec['k'] == 'doc400':
         return 'ok' if obs['k'] == 'err400' else 'D:doc400'
     return 'ok'
@@ -208,7 +235,7 @@ def accepts(spec, obs):
 SIMPLE = {
     'accept': lambda t: t in (['application/json'], ['*/*;q=0.1']),
     'range': lambda t: len(t) >= 3 and t[0] == 'bytes' and t[1] == '=' and ',' not in t and ' ' not in t
-    and not (len(t) > 3 and t[2] == '0' and t[3].isdigit()),
+    and not (len(t) > 3 and t[2] == '0' and t[3].isdigit()) and not any(len(x) > 9 for x in t),
     'content-length': lambda t: len(t) >= 1 and all(x.isdigit() for x in t) and (t[0] != '0' or len(t) == 1),
     'if-match': lambda t: len(t) == 1,
     'if-none-match': lambda t: len(t) == 1,
@@ -219,6 +246,11 @@ SIMPLE = {
     'x-forwarded-host': lambda t: len(t) == 1,
     'host': lambda t: len(t) == 1 and t[0] in ('localhost', 'example.com'),
 }
+# a date in the untouched IMF-fixdate layout (whatever its slots hold) is the simplest form
+_IMF = lambda t: len(t) == 13 and t[1:3] == [',', ' '] and t[4] == t[6] == t[8] == t[10] == ' ' and t[11:] == ['GMT', '']
+SIMPLE.update({n: (lambda t: _IMF(t) and t[0] in ('Sun', 'Mon', 'Tue', 'Wed', 'Thu', 'Fri', 'Sat') and len(t[7]) == 4
+                   and t[5] in ('Jan', 'Feb', 'Mar', 'Apr', 'May', 'Jun', 'Jul', 'Aug', 'Sep', 'Oct', 'Nov', 'Dec'))
+               for n in DATE_HDRS})
 
 
 def nontrivial(rq):
@@ -237,7 +269,8 @@ class Gen:
     def __init__(self, rng, vocab):
         self.r = rng
         # run tokens (\r{..}) expand on the wire: they are used through opaque values only (see header())
-        self.v = {k: sorted(t for t in x if not t.startswith('\\r{')) for k, x in vocab.items()}
+        self.v = {k: sorted(t for t in x if not t.startswith('\\r{')) if k[:4] != 'date' or k == 'date' else x
+                  for k, x in vocab.items()}
 
     def num(self, lo=1, hi=4):
         return [self.r.choice('0123456789') for _ in range(self.r.randint(lo, hi))]
@@ -248,7 +281,11 @@ class Gen:
             unit = [r.choice(['bytes', 'bytes', 'bytes', 'items', 'x'])]
             k = r.random()
             a = self.num() if r.random() < 0.8 else ['0'] * r.randint(1, 3)      # first/last = 0 and 0-0 forms
-            spec = a + ['-'] + (a if r.random() < 0.25 else self.num()) if k < 0.4 else a + ['-'] if k < 0.7 else ['-'] + a
+            b = a if r.random() < 0.25 else self.num()
+            if r.random() < 0.2:                                                 # numerals around 2^63 / 2^64 / 25 digits
+                big = lambda: ['0'] * (r.random() < 0.2) + [r.choice(self.v['big'])]
+                a, b = r.choice([(big(), b), (a, big()), (big(), big())])
+            spec = a + ['-'] + b if k < 0.4 else a + ['-'] if k < 0.7 else ['-'] + a
             if r.random() < 0.15:
                 spec += [','] + ([' '] if r.random() < 0.5 else []) + self.num() + ['-']
             return unit + ['='] + spec
@@ -283,6 +320,8 @@ class Gen:
             for i in range(r.randint(1, 4)):
                 out += ([',', ' '] if i and r.random() < 0.6 else [','] if i else []) + [r.choice(self.v['accranges'])]
             return out
+        if g == 'date':
+            return list(r.choice(self.v['datebases']))
         if g == 'xff':
             out = []
             for i in range(r.randint(1, 4)):
@@ -303,6 +342,12 @@ class Gen:
     def mutate(self, toks, g):
         r = self.r
         toks = list(toks)
+        if g == 'date':                         # slot edits that keep the shape, more of them than the exhaustive bound
+            kinds_ = self.v['datekinds'][str(len(toks))]
+            for _ in range(r.choice([1, 2, 3, 3, 4, 5])):
+                j = r.randrange(len(toks))
+                toks[j] = r.choice(self.v['datealpha'][kinds_[j]])
+            return toks
         for _ in range(r.randint(1, 2)):
             k = r.random()
             pool = self.v[g]
@@ -329,10 +374,16 @@ class Gen:
             return hdr(self.valid(g))
         if k < 0.8:
             return hdr(self.mutate(self.valid(g), g))
-        if k < 0.9:
+        if k < 0.9 and g != 'date':
             return hdr([r.choice(self.v[g]) for _ in range(r.randint(0, 14))])
-        text = list(''.join(self.valid(g)))
-        for _ in range(r.randint(1, 3)):                     # character-level fuzz: not expressible in tokens
+        if k < 0.87:
+            return hdr(self.mutate(self.valid(g), g))
+        text = list(unesc(''.join(self.valid(g))))
+        if g == 'date' and k > 0.93:                         # any instant of 1970..2096, outside the token vocabulary
+            dt = datetime.datetime(1970, 1, 1, tzinfo=datetime.timezone.utc) + \
+                datetime.timedelta(seconds=r.randrange(0, 4 * 10 ** 9))
+            text = list(email.utils.format_datetime(dt, usegmt=True))
+        for _ in range(r.randint(1, 3) if not (g == 'date' and k > 0.965) else 0):                     # character-level fuzz: not expressible in tokens
             j = r.randint(0, len(text))
             if r.random() < 0.5 and text:
                 text[min(j, len(text) - 1)] = r.choice(FUZZ_CHARS)
@@ -351,7 +402,8 @@ class Gen:
         h = rq['h']
         for name, g, p in (('range', 'range', .5), ('content-length', 'clen', .4), ('if-match', 'etag', .3),
                            ('if-none-match', 'etag', .4), ('forwarded', 'fwd', .45), ('x-forwarded-for', 'xff', .3),
-                           ('host', 'host', .85)):
+                           ('host', 'host', .85), ('date', 'date', .3), ('if-modified-since', 'date', .3),
+                           ('if-unmodified-since', 'date', .25)):
             if r.random() < p:
                 h[name] = self.header(g)
         if r.random() < 0.55:
@@ -369,20 +421,9 @@ class Gen:
         return rq
 
     def extra_headers(self):
-        """headers outside the TLA+ vocabulary: dates, cookies (value-or-400 and idempotence only)."""
+        """headers outside the TLA+ vocabulary: cookies (value-or-400 and idempotence only)."""
         r = self.r
         out = []
-        for name in ('Date', 'If-Modified-Since', 'If-Unmodified-Since'):
-            if r.random() < 0.3:
-                dt = datetime.datetime(1970, 1, 1, tzinfo=datetime.timezone.utc) + \
-                    datetime.timedelta(seconds=r.randrange(0, 4 * 10 ** 9))
-                t = email.utils.format_datetime(dt, usegmt=True)
-                if r.random() < 0.5:
-                    t = list(t)
-                    j = r.randrange(len(t))
-                    t[j:j + 1] = r.choice([[], [r.choice(FUZZ_CHARS)], [t[j], t[j]]])
-                    t = ''.join(t)
-                out.append((name, t))
         if r.random() < 0.3:
             parts = []
             for _ in range(r.randint(1, 4)):
@@ -407,7 +448,9 @@ def run(ctx):
         'the peer address closes access_route unless it already is its last element (documented for falcon.asgi.Request)',
         'proto / X-Forwarded-Proto are compared in canonical lower case (RFC 3986 3.1)',
         'multi-range headers: the documented 400 is a detail clause; suffix-range 0 and last<first are "value or 400"',
-        'HTTP-date arithmetic and cookie octets are not specified in TLA+ (DESIGN 5): laws and trusted decoders only',
+        'cookie octets and HTTP-date instants outside the slot vocabulary are not specified in TLA+ (DESIGN 5): laws and trusted decoders only',
+        'a valid obs-date (rfc850 / asctime) read without obs_date=True may be refused with 400 (falcon documents RFC 1123 dates '
+        'there) but must never be read as another instant; a day name that contradicts the date makes the value invalid',
     ]
     quick = ctx.quick
 
@@ -425,10 +468,21 @@ def run(ctx):
             vocab = meta[0]['vocab']
             spec_attrs = set(meta[0]['attrs'])
     r.coverage = {k: (v, v) for k, v in guard.items()}          # firing counters stand in for -coverage (see META)
-    ctx.require_coverage(r, ['XAccept', 'XRange', 'XRSet', 'XCLen', 'XCLenX', 'XETag', 'XFwd', 'XXff', 'XHost', 'XReadUri', 'XReadForwardedUri',
+    ctx.require_coverage(r, ['XAccept', 'XRange', 'XRSet', 'XRBig', 'XCLen', 'XCLenX', 'XETag', 'XFwd', 'XXff', 'XHost', 'XReadUri', 'XReadForwardedUri',
                              'XReadRelativeUri', 'XReadPrefix', 'XReadForwardedPrefix', 'XReadForwarded',
                              'XReadAccessRoute', 'XReadETags', 'XReadPlain', 'XGetHeader'])
     ctx.extra['action_firings'] = guard
+    # HTTP-dates: slot-level grammar (MC_HeaderDates): named-action coverage + the vocabulary for leg B
+    rd = ctx.tlc('MC_HeaderDates', 'MC_HeaderDatesC.cfg', workers=2, timeout=600, coverage=True)
+    ctx.require_coverage(rd, ['XMutDayName', 'XMutDay', 'XMutMonth', 'XMutYear', 'XMutTime', 'XMutZone', 'XMutSep', 'XMutTail'])
+    dv = [j for j in rd.json if 'datevocab' in j]
+    if not dv:
+        raise MachineryError('date vocabulary export missing')
+    dv = dv[0]['datevocab']
+    vocab['datebases'] = sorted(dv['bases'])
+    vocab['datekinds'] = {'13': dv['kinds13'], '10': dv['kinds10']}
+    vocab['datealpha'] = {k: sorted(v) for k, v in dv['alpha'].items()}
+    vocab['date'] = sorted(set(t for v in dv['alpha'].values() for t in v))
     rb = ctx.tlc('MC_HeaderAccess', 'MC_HeaderAccessBad.cfg', workers=4, timeout=600, must_hold=False, count=False)
     if rb.violated not in ('MemoSound', 'CacheSound'):
         raise MachineryError('wrong-design switch SharedUriSlot did not violate the memo invariants (%r)' % rb.violated)
@@ -442,7 +496,17 @@ def run(ctx):
         rg = ctx.tlc('MC_HeaderAccess', 'MC_HeaderAccessG.cfg', workers=4, timeout=1500)
         ctx.progress('leg M grammars: %d distinct states' % rg.distinct)
         table = ctx.tlc('MC_HeaderAccess', 'MC_HeaderAccessGE.cfg', workers=4, timeout=1500, count=False).json
-    ctx.progress('leg M grammars + decision table: %d states, %d table rows' % (rg.distinct, len(table)))
+    rdt = ctx.tlc('MC_HeaderDates', 'MC_HeaderDatesQ.cfg' if quick else 'MC_HeaderDates.cfg', workers=4, timeout=1500)
+    dtable = list({tuple(j['t']): j for j in rdt.json if j.get('g') == 'date'}.values())    # a value is reached along several edit orders
+    by_fmt = {}
+    for row in dtable:
+        by_fmt[row['fmt']] = by_fmt.get(row['fmt'], 0) + 1
+    if not all(by_fmt.get(f, 0) > 1 for f in ('imf', 'rfc850', 'asctime', 'none')):
+        raise MachineryError('date decision table is vacuous: rows by format %r' % by_fmt)
+    ctx.extra['date_table_rows_by_format'] = by_fmt
+    table = table + dtable
+    ctx.progress('leg M grammars + decision table: %d + %d states, %d table rows (dates by format: %r)'
+                 % (rg.distinct, rdt.distinct, len(table), by_fmt))
     ctx.exhaustive = True
 
     tally = ctx.extra.setdefault('failures_by_clause', {})
@@ -458,6 +522,7 @@ def run(ctx):
         if 'g' in row:
             rows[(row['g'], row['scheme'], tuple(row['t']))] = row
     n_a1 = 0
+    obs400 = {}
     order = sorted(rows.items())
     # HistoryFree across requests: what a request reports is a function of its own headers, whatever the
     # process parsed before.  Accept elements are parsed through process-wide caches, so the Accept table is
@@ -465,7 +530,8 @@ def run(ctx):
     order += [x for x in reversed(order) if x[0][0] == 'accept']
     for idx, ((g, scheme, toks), row) in enumerate(order):
         rq = base_req(scheme)
-        rq['h'][G_HDR[g]] = hdr(toks)
+        for hn_ in (DATE_HDRS if g == 'date' else (G_HDR[g],)):
+            rq['h'][hn_] = hdr(toks)
         if ''.join(toks) != row['text']:
             raise MachineryError('text mismatch for %r' % (row,))
         nt = nontrivial(rq)
@@ -481,7 +547,12 @@ def run(ctx):
                     a, want = ao['a'], ao['o']
                     o1, ex = observe(q, a)
                     v = accepts(want, o1)
-                    if v == 'D:doc400':
+                    if v == 'D:obs400':
+                        # a valid obs-date read without obs_date=True: 400 is the documented answer (counted, one NOTE)
+                        if not obs400:
+                            ctx.detail(v, case, '%s gave %r for the valid %s %r' % (a, o1, row.get('fmt'), row['text']))
+                        obs400[(row.get('fmt'), a)] = obs400.get((row.get('fmt'), a), 0) + 1
+                    elif v == 'D:doc400':
                         ctx.detail(v, case, '%s gave %r' % (a, o1))
                     elif v != 'ok':
                         fail(v, dict(case, accessor=a, spec=want, observed=o1), '%s on %s %r: spec %r, observed %r %r'
@@ -499,6 +570,7 @@ def run(ctx):
                              'get_header(%r) gave %r for wire text %r' % (cased(G_HDR[g], lc), o, row['text']))
     ctx.traces_validated += n_a1
     ctx.extra['decision_table_rows'] = len(rows)
+    ctx.extra['valid_obs_dates_refused_without_obs_date'] = {'%s %s' % k: v for k, v in sorted(obs400.items())}
     ctx.progress('leg A1 done: %d table rows, %d replays' % (len(rows), n_a1))
 
     # ---- leg A2: TLC-simulated read histories replayed ----------------------------------------------
@@ -782,7 +854,8 @@ def replay(ctx, case):
     print('case:', c)
     if c.get('leg') == 'A1':
         rq = base_req(c['scheme'])
-        rq['h'][G_HDR[c['grammar']]] = hdr(c['tokens'])
+        for hn_ in (DATE_HDRS if c['grammar'] == 'date' else (G_HDR[c['grammar']],)):
+            rq['h'][hn_] = hdr(c['tokens'])
         reads = [(case.get('accessor') or c.get('accessor'), '', 'Title')] * 2
         extra = ()
     elif c.get('leg') == 'A2':
